@@ -56,6 +56,7 @@ fn main() {
         "queries" => drive_queries(&mut cx),
         "serde" => drive_serde(&mut cx),
         "toroidal" => drive_toroidal(&mut cx),
+        "extreme" => drive_extreme(&mut cx),
         "faults" => vharness::faults::drive_faults(&mut cx),
         "determinism" => drive_determinism(&mut cx, &out),
         "detchild" => drive_detchild(&mut cx.tr, &hist),
